@@ -3,10 +3,11 @@ CONSTANTS
   MaxLen = 5
   MaxClock = 3
   Rings <- MCRings
-  MaxB = 2
+  MaxB = 1
   MaxJ = 1
   Strict = TRUE
   JumboInside = FALSE
+  ExportUnspecLen = 4
   Variant = "code"
 INVARIANTS Refinement IdempotentInv RunAgrees Tight AfterSort Lemmas RegionAgree RingInv
 
